@@ -107,8 +107,9 @@ inline std::string compare(const ArtFile& a, const ref::RPrt& r)
 			const auto& f = x.frames[fi]; const auto& ef = e.frames[fi];
 			std::string w = "animation " + std::to_string(ai) + " frame " + std::to_string(fi);
 			if (f.layerMetadata.count != ef.count7 || bool(f.layerMetadata.bReadOptionalData) != ef.flag1 || f.unknownBitfield.count != ef.unknown7 || bool(f.unknownBitfield.bReadOptionalData) != ef.flag2) return w + " flag bytes";
-			uint8_t o1 = ef.flag1 ? ef.opt[0] : 0, o2 = ef.flag1 ? ef.opt[1] : 0, o3 = ef.flag2 ? ef.opt[2] : 0, o4 = ef.flag2 ? ef.opt[3] : 0;
-			if (f.optional1 != o1 || f.optional2 != o2 || f.optional3 != o3 || f.optional4 != o4) return w + " optional bytes";
+			// an optional byte pair is compared where the file stores it; what the object holds for a pair that is not stored is the reader's choice
+			if (ef.flag1 && (f.optional1 != ef.opt[0] || f.optional2 != ef.opt[1])) return w + " optional bytes";
+			if (ef.flag2 && (f.optional3 != ef.opt[2] || f.optional4 != ef.opt[3])) return w + " optional bytes";
 			if (f.layers.size() != ef.layers.size()) return w + " layer count";
 			for (std::size_t li = 0; li < ef.layers.size(); ++li) { const auto& l = f.layers[li]; const auto& el = ef.layers[li]; if (l.bitmapIndex != el.bitmapIndex || l.unknown != el.unknown || l.frameIndex != el.frameIndex || l.pixelOffset.x != el.x || l.pixelOffset.y != el.y) return w + " layer " + std::to_string(li); }
 		}
@@ -142,7 +143,7 @@ inline ref::RPrt makePrt(const std::vector<int>& c)
 			ref::RFrame fr; int fl = (c[6] + f + a) % 4; fr.flag1 = fl & 1; fr.flag2 = fl & 2;
 			int lc = layerCounts[(c[7] + f) % 4]; fr.count7 = uint8_t(lc); fr.unknown7 = uint8_t(0x55 >> f);
 			uint8_t ob = c[8] == 0 ? 0xA5 : 0; fr.opt[0] = ob; fr.opt[1] = uint8_t(ob + 1); fr.opt[2] = uint8_t(ob + 2); fr.opt[3] = uint8_t(ob ? ob + 3 : 0);
-			for (int l = 0; l < lc; ++l) { ref::RLayer L; L.bitmapIndex = uint16_t(l * 3 + f); L.unknown = uint8_t(l); L.frameIndex = uint8_t(255 - l); L.x = int16_t(-l); L.y = int16_t(l * 100); fr.layers.push_back(L); }
+			for (int l = 0; l < lc; ++l) { ref::RLayer L; L.bitmapIndex = uint16_t(ni > 0 ? (l * 3 + f) % ni : l * 3 + f); /* names an image of the table where the table is not empty */ L.unknown = uint8_t(l); L.frameIndex = uint8_t(255 - l); L.x = int16_t(-l); L.y = int16_t(l * 100); fr.layers.push_back(L); }
 			an.frames.push_back(fr);
 		}
 		for (int u = 0; u < c[9]; ++u) { ref::RUnknown U; for (int k = 0; k < 4; ++k) U.v[k] = uint32_t(u * 4 + k + 0xF0000000u); an.containers.push_back(U); }
